@@ -40,9 +40,15 @@ class DiskReader:
     def cells(self, tier):
         out = [{"id": "fn/read_data/%s" % k, "fn": "read_data", "kind": k} for k in ("ML", "BASIC", "ASCII", "nested-call")]
         out.append({"id": "fn/calculate_file_length", "fn": "cfl"})
+        out.append({"id": "fn/list_files", "fn": "lf"})
         return out
 
     def probes(self, cell):
+        if cell["fn"] == "lf":
+            for sizes in ([5], [0, 2299, 300], [4603, 1, 2304], [2295, 2296, 2297, 2298], [7000, 0, 0, 11]):
+                yield {"sizes": sizes, "order": "default"}
+                yield {"sizes": sizes, "order": "evenodd"}
+            return
         if cell["fn"] == "cfl":
             for chain, s, b in (([5], 1, 0), ([5, 6], 3, 17), ([67, 0, 33], 9, 255), ([1, 2, 3, 4, 5, 6, 7, 8], 2, 1)):
                 yield {"chain": chain, "k": len(chain), "s": s, "b": b}
@@ -117,6 +123,188 @@ class DiskReader:
             return
         env.ensure(KEY + "calculate_file_length::post:length", r == GR * (len(chain) - 1) + (s - 1) * 256 + b, ("C07",),
                    lambda: "calculate_file_length:m=%d" % len(chain))
+
+    def n_lf(self, env, cell):
+        """property-level: list_files on an image built by the independent builder returns exactly its files"""
+        F = Files(env)
+        sizes = list(env.holes.get("sizes", []))
+        if not sizes:
+            raise sym.PathAbort()
+        order = {"default": None, "evenodd": list(range(0, 68, 2)) + list(range(1, 68, 2))}[env.holes.get("order", "default")]
+        kinds = [(2, 0), (0, 0), (1, 0xFF)]
+        want = []
+        for j, L in enumerate(sizes):
+            ft, dt = kinds[j % 3]
+            want.append(("F%d" % j, "BIN", ft, dt, 0x1000 + j, 0x2000 + j, [(5 * t + j) % 256 for t in range(L)]))
+        img = db.build(want, order=order) if order else db.build(want)
+        d = F.new(DSK, "DiskFile", buffer=list(img))
+        key = KEY + "list_files"
+        try:
+            got = list(F.method(d, "list_files"))
+        except Raised as e:
+            env.fail(key + "::raises:none-on-valid-image", ("C07", "C13"), lambda: "list_files:raised:%s:%s" % (e.cls, ",".join(map(str, sizes))))
+            return
+        env.ensure(key + "::post:count", len(got) == len(want), ("C07",), lambda: "list_files:count=%d,want=%d" % (len(got), len(want)))
+        for g, w in zip(got, want):
+            ok = F.get(g, "name") == w[0] and list(F.get(g, "data")) == w[6] and F.intval(F.get(g, "type")) == w[2]
+            if w[2] == 2:
+                ok = ok and F.intval(F.get(g, "load_addr")) == w[4] and F.intval(F.get(g, "exec_addr")) == w[5]
+            env.ensure(key + "::post:entry", ok, ("C07",), lambda: "list_files:entry:%s:len=%d" % (w[0], len(w[6])))
+
+    # ------------------------------------------------------------------ list_files: the directory loop, callees through contracts
+    def s_lf(self, env, cell):
+        """for ANY image: slot i of the directory (i symbolic) is skipped iff its first byte is 00 / FF; otherwise exactly one file
+        is appended whose type / data type come from the entry, whose data are the bytes [pl, pl+L) of the stream of its FAT chain
+        (read_data's contract), L from the preamble (ML, BASIC) or from the FAT (calculate_file_length's contract), whose load
+        address is stream[3..4] and exec address stream[pl+L+3 .. pl+L+4] for ML files.  Pre-condition (valid image): the chain of
+        every active entry is FAT-linked and long enough, the stream starts with the kind's flag byte, an ML stream has FF 00 00
+        behind the data.  Names: the 8 + 3 name bytes are read by read_sequence (contract: the decoded bytes); their normalisation
+        (.replace) is not interpreted here."""
+        from pyvc.lists import AbsList
+        from lemmas.disk_addfile import DIR
+        F = Files(env)
+        p = cur()
+        it = F.it
+        A0 = z3.Array("A0", z3.IntSort(), z3.IntSort())
+        d = F.new(DSK, "DiskFile")
+        buf = ArrList(A0, N)
+        F.set(d, "buffer", buf)
+        key = KEY + "list_files"
+        GA2 = z3.Array("chains", z3.IntSort(), z3.ArraySort(z3.IntSort(), z3.IntSort()))     # chain of the file in slot i
+        LEN = z3.Array("lens", z3.IntSort(), z3.IntSort())                                   # its data length
+        CNT = z3.Array("count", z3.IntSort(), z3.IntSort())                                  # active entries before slot i
+        st = {"files": {}}
+
+        def ent(i, k):
+            return sel(A0, DIR + 32 * i + k)
+
+        def active(i):
+            return And(ent(i, 0) != 0x00, ent(i, 0) != 0xFF)
+
+        def g(i, m):
+            return SymInt(z3.simplify(z3.Select(z3.Select(GA2, sym._z(i)), sym._z(m))))
+
+        def loc(i, j):
+            m = sym.floordiv(j, GR) if isinstance(j, SymInt) else j // GR
+            return offset(g(i, m)) + (j % GR)
+
+        def strm(i, j):
+            return sel(A0, loc(i, j))
+
+        def kind_pl(i):
+            return Ite(ent(i, 11) == 2, 5, Ite(ent(i, 12) == 0xFF, 0, 3))
+
+        def pre(i):
+            """instance i of the pre-condition (valid image): bytes are bytes, first granule from the entry, flag byte, lengths"""
+            L = sel(LEN, i)
+            pl = kind_pl(i)
+            c = [sel(CNT, i + 1) == sel(CNT, i) + Ite(active(i), 1, 0), sel(CNT, 0) == 0]
+            for k in (0, 11, 12, 13, 14, 15):
+                c.append(And(ent(i, k) >= 0, ent(i, k) <= 255))
+            v = [g(i, 0) == ent(i, 13), g(i, 0) >= 0, g(i, 0) <= 67, L >= 0, L <= 65535]
+            for k in range(5):
+                v.append(And(strm(i, k) >= 0, strm(i, k) <= 255))
+            ml = And(strm(i, 0) == 0x00, strm(i, 1) * 256 + strm(i, 2) == L,
+                     strm(i, 5 + L) == 0xFF, strm(i, 6 + L) == 0x00, strm(i, 7 + L) == 0x00,
+                     strm(i, 8 + L) >= 0, strm(i, 8 + L) <= 255, strm(i, 9 + L) >= 0, strm(i, 9 + L) <= 255)
+            bas = And(strm(i, 0) == 0xFF, strm(i, 1) * 256 + strm(i, 2) == L)
+            v.append(Implies(ent(i, 11) == 2, ml))
+            v.append(Implies(And(ent(i, 11) != 2, ent(i, 12) != 0xFF), bas))
+            c.append(Implies(active(i), And(*v)))
+            return And(*c)
+        v = Verifier(env, it)
+
+        # ---- callee contracts
+        def apply_rs(v_, interp, func, args):
+            ptr, n_, dec = args["pointer"], args["length"], args.get("decode", False)
+            st["names"] = st.get("names", 0) + 1
+            return "NAME%d" % st["names"] if dec else [0] * n_
+        v.contract(KEY + "read_sequence", CallSpec(apply_rs))
+
+        def apply_cfl(v_, interp, func, args):
+            i = st["i"]
+            env.ensure(KEY + "calculate_file_length::pre@call:first-granule", args["granule"] == g(i, 0), ("C07",), internal=INTERNAL)
+            st["cfl"] = True
+            return sel(LEN, i)                       # its contract: the stream length encoded in the FAT chain + last-sector bytes
+        v.contract(KEY + "calculate_file_length", CallSpec(apply_cfl))
+
+        def apply_rd(v_, interp, func, args):
+            i = st["i"]
+            pre_ = args["preamble"]
+            pl = it.getattr_(pre_, "length") if pre_ is not None else 0
+            R = args["data_length"]
+            env.ensure(KEY + "read_data::pre@call:first-granule", args["starting_granule"] == g(i, 0), ("C07",), internal=INTERNAL)
+            env.ensure(KEY + "read_data::pre@call:preamble-kind", pl == kind_pl(i), ("C07",), internal=INTERNAL)
+            p.fresh += 1
+            RD = z3.Array("rdata!%d" % p.fresh, z3.IntSort(), z3.IntSort())
+            fact = Forall("rd", 0, R, lambda t: sel(RD, t) == strm(i, pl + t))
+            v_.facts.append(fact)
+            # named instances of the post-condition at the five positions behind the data (the postamble of a binary file)
+            for k_ in range(1, 6):
+                p.assume(fact.instance(R - k_))
+            st["rd"] = (RD, R, pl)
+            return (ArrList(RD, R), Ite(R == 0, offset(g(i, 0)) + pl, loc(i, pl + R - 1) + 1))
+        v.contract(KEY + "read_data", CallSpec(apply_rd))
+
+        # ---- the directory loop
+        def on_append(lst, x):
+            i = st["i"]
+            L = sel(LEN, i)
+            RD, R, pl = st.get("rd", (None, None, None))
+            dat = F.get(x, "data")
+            ok_data = isinstance(dat, ArrList) and RD is not None and dat.arr is RD and isinstance(dat.off, int) and dat.off == 0
+            env.ensure(key + "::loop0::append:data-is-read_data-result", ok_data, ("C07",), internal=INTERNAL)
+            if not ok_data:
+                return
+            env.ensure(key + "::loop0::append:data-length", dat.length() == L, ("C07",), internal=INTERNAL)
+            env.ensure(key + "::loop0::append:read-from-data-start", pl == kind_pl(i), ("C07",), internal=INTERNAL)
+            env.ensure(key + "::loop0::append:type", And(F.intval(F.get(x, "type")) == ent(i, 11), F.intval(F.get(x, "data_type")) == ent(i, 12)),
+                       ("C07",), internal=INTERNAL)
+            if branch(ent(i, 11) == 2):
+                fs = [f for f in v.facts if f.name == "rd"]
+                hs = [f.instance(L + 3) for f in fs] + [f.instance(L + 4) for f in fs]
+                env.ensure(key + "::loop0::append:ml-addresses",
+                           sym.Implies(And(*hs), And(F.intval(F.get(x, "load_addr")) == strm(i, 3) * 256 + strm(i, 4),
+                                                     F.intval(F.get(x, "exec_addr")) == strm(i, 5 + L + 3) * 256 + strm(i, 5 + L + 4))),
+                           ("C07",), internal=INTERNAL)
+            st["appended"] = st.get("appended", 0) + 1
+
+        def init(ctx):
+            st["i"] = 0
+            return {}
+
+        def havoc(ctx):
+            p.fresh += 1
+            ctx.locals["pointer"] = SymInt(z3.Int("dptr!%d" % p.fresh))
+            al = AbsList(SymInt(z3.Int("nfiles!%d" % p.fresh)), lambda idx: None)
+            al.on_append = on_append
+            ctx.locals["files"] = al
+            st.pop("rd", None)
+            st["appended"] = 0
+            return {}
+
+        def inv(ctx, i, gh):
+            st["i"] = i
+            fl = ctx.locals["files"]
+            ln = fl.length() if isinstance(fl, AbsList) else len(fl)
+            return [("pointer", ctx.locals["pointer"] == DIR + 32 * i), ("files-so-far", ln == sel(CNT, i))]
+
+        def assume(ctx, i):
+            st["i"] = i
+            return [pre(i)]
+
+        def step(ctx, i, gh):
+            return {}
+        v.loop(key, 0, LoopSpec(("C07",), init, havoc, inv, step, assume=assume))
+        p.assume(sel(CNT, 0) == 0)
+        with v.installed():
+            try:
+                r = F.method(d, "list_files")
+            except Raised as e:
+                env.fail(key + "::raises:none-on-valid-image", ("C07", "C13"), internal=INTERNAL)
+                return
+        ln = r.length() if isinstance(r, AbsList) else len(r)
+        env.ensure(key + "::post:count", ln == sel(CNT, 72), ("C07",), internal=INTERNAL)
 
     # ------------------------------------------------------------------ read_data, symbolic
     def s_read_data(self, env, cell):
